@@ -605,6 +605,14 @@ def fold(t):
         if isinstance(a, tuple) and a[0] == "call" and a[1].endswith("FromResidual<std::result::Result<std::convert::Infallible, E>>>::from_residual"):
             # a Result built from a residual is always Err: `?` on it (e.g. after inlining a helper) takes the Break arm
             return ("agg", "adt", "std::ops::ControlFlow", "Break", (a,), ("0",))
+    elif k == "call" and len(t[2]) == 1 and re.search(r"core::num::<impl [ui](8|16|32|64|128|size)>::to_(le|be)_bytes$", t[1]):
+        a = t[2][0]
+        ci = _cint(a)
+        m = re.search(r"<impl ([ui])(8|16|32|64|128|size)>::to_(le|be)_bytes$", t[1])
+        if ci is not None:
+            w = 8 if m.group(2) == "size" else int(m.group(2)) // 8
+            v = ci & ((1 << (8 * w)) - 1)
+            return ("const", ("bytes", v.to_bytes(w, "little" if m.group(3) == "le" else "big"), "[u8; %d]" % w))
     elif k == "call" and len(t[2]) == 1 and t[1].endswith("Option<T> as std::ops::Try>::branch"):
         a = t[2][0]
         if isinstance(a, tuple) and a[0] == "agg" and a[1] == "adt" and a[2] == "std::option::Option":
@@ -973,7 +981,10 @@ def _expand_map(B, bi, t, by_path, adts, kind):
             for v in a["variants"]:
                 if v["name"] == vname and len(v["fields"]) == 1:
                     ctor = (adt, v["idx"], vname)
-    if ctor is None:
+    fnitem = None
+    if ctor is None and c is not None and "fn" in c:
+        fnitem = c["fn"]          # a plain function named as the mapper: `.map(<[u8]>::to_vec)`, `.map(u32::from)`
+    if ctor is None and fnitem is None:
         co = _closure_of_operand(B, bi, f)
         if co is None or co[0] not in by_path or by_path[co[0]]["arg_count"] != 2:
             return False
@@ -1003,6 +1014,11 @@ def _expand_map(B, bi, t, by_path, adts, kind):
             {"k": "assign", "lhs": {"l": ml, "p": []}, "rv": {"k": "agg", "ak": "adt", "adt": ctor[0], "variant": ctor[1], "vname": ctor[2], "fnames": ["0"], "active": None,
                                                              "fields": [payload]}, "line": line, "exp": None}],
             "term": {"k": "goto", "t": bo + 1, "line": line, "exp": None}}
+        B["blocks"] = B["blocks"] + [ok_blk, wrap_blk, err_blk]
+        ok_t, er_t = bo, bo + 2
+    elif fnitem is not None:
+        ok_blk = {"cleanup": False, "stmts": [],
+                  "term": {"k": "call", "func": fnitem, "args": [payload], "arg_tys": [""], "dest": {"l": ml, "p": []}, "t": bo + 1, "unwind": None, "line": line, "exp": None}}
         B["blocks"] = B["blocks"] + [ok_blk, wrap_blk, err_blk]
         ok_t, er_t = bo, bo + 2
     else:
